@@ -4,8 +4,8 @@ CONSTANTS
   DEV_StatusRowNext = FALSE
   DEV_AccountPriceNext = FALSE
   DEV_StatusWrittenBack = FALSE
-  DEV_BookSharedWithData = TRUE
-  DEV_HourRounded = FALSE
+  DEV_BookSharedWithData = FALSE
+  DEV_HourRounded = TRUE
   NBars = 4
   Syms = 2
   Factors = {1, 5}
@@ -13,5 +13,5 @@ CONSTANTS
   Pairs = TRUE
 INIT Init
 NEXT Next
-INVARIANT Inv_InputsIntact
+INVARIANT Inv_Prefix
 CHECK_DEADLOCK FALSE
